@@ -74,7 +74,11 @@ impl<I: Interner> Solver<I> for SLGSolver<I> {
                         SubstitutionResult::Ambiguous(answer.subst)
                     }
                 }
-                AnswerResult::Floundered => SubstitutionResult::Floundered,
+                AnswerResult::Floundered => {
+                    // A floundered table stays floundered: report it once
+                    // instead of streaming it to the callback forever.
+                    return f(SubstitutionResult::Floundered, false);
+                }
                 AnswerResult::NoMoreSolutions => {
                     return true;
                 }
